@@ -69,7 +69,26 @@ async def main():
         await asyncio.wait_for(asyncio.gather(*tasks), timeout=60)
         for c in comps.values():
             await c.handle_input(Input(c.name, SimTime(0), Changes(Map())))
-        out[run] = {n: {"records": {r.name.replace(f"{run}_", ""): r.get() for r in a.records}, "notified": a.notified}
+        # a record that is processed calls the adapter's `interrupt`: the io must have given every adapter the
+        # raise_interrupt of ITS OWN component (observed as Interrupt messages on the components' output topics)
+        from tickit.core.typedefs import Interrupt
+        from tickit.utils.topic_naming import output_topic
+        seen = []
+
+        async def on_msg(m):
+            if isinstance(m, Interrupt):
+                seen.append(m.source)
+        watcher = InternalStateConsumer(on_msg)
+        await watcher.subscribe([output_topic(c.name) for c in comps.values()])
+        raised = {}
+        for n, a in adapters.items():
+            before = len(seen)
+            try:
+                await a.interrupt()
+                raised[n] = [s.replace(f"{run}_", "") for s in seen[before:]]
+            except Exception as e:   # noqa: BLE001
+                raised[n] = type(e).__name__
+        out[run] = {n: {"records": {r.name.replace(f"{run}_", ""): r.get() for r in a.records}, "notified": a.notified, "interrupt": raised[n]}
                     for n, a in adapters.items()}
 
 try:
